@@ -140,11 +140,11 @@ struct Ctx
 };
 
 // a quiet SETDATA / REMOVEDATA of session K: the mirror oracle stays applicable for the clients none of whose subscription
-// paths reaches below K's session node (quiet_frame); the sender itself and everybody who can see it are out
+// paths reaches below K's session node (quiet_frame), and for the sender itself (only its own subtree changes, which its
+// mirror statement leaves out); everybody who can see the sender's subtree is out
 static void QuietBy(Ctx & c, int K)
 {
    W & w = *c.w;
-   c.cs[K].tainted = true;
    const std::string idStr = itos((long)w.RealID(K));
    for (size_t ci=0; ci<c.cs.size(); ci++) if ((int)ci != K)
    {
